@@ -10,7 +10,8 @@
 (***************************************************************************)
 EXTENDS YMerge, YDocGen, Json, CSV, IOUtils, SequencesExt
 
-CONSTANTS AllCombos      \* BOOLEAN: the full 3x4x5x3 product instead of the one-dimension-at-a-time slice
+CONSTANTS AllCombos,     \* BOOLEAN: the full 3x4x5x3 product instead of the one-dimension-at-a-time slice
+          AnchorModes    \* set of anchor-conflict policies to cross with (C10); {"stop"} for C05
 VARIABLES side, lhs
 
 mvars == <<doc, open, fresh, side, lhs>>
@@ -20,6 +21,7 @@ Scalars3 == <<S("null", ""), S("int", "1"), S("str", "a")>>
 Keys3 == <<S("str", "a"), S("str", "b"), S("str", "c")>>
 Keys2 == <<S("str", "a"), S("str", "b")>>
 Members2 == <<S("str", "a"), S("str", "b")>>
+Members0 == <<>>
 
 Init == GInit /\ side = "L" /\ lhs = <<>>
 Build == GNext /\ UNCHANGED <<side, lhs>>
@@ -31,7 +33,7 @@ Freeze == /\ side = "L" /\ fresh
 Next == Build \/ Freeze
 Spec == Init /\ [][Next]_mvars
 
-Cfg(h, a, o, s) == [hashes |-> h, arrays |-> a, aoh |-> o, sets |-> s, idkey |-> ""]
+Cfg(h, a, o, s) == [hashes |-> h, arrays |-> a, aoh |-> o, sets |-> s, idkey |-> "", amode |-> "stop"]
 HashM == {"deep", "left", "right"}
 ArrM == {"all", "left", "right", "unique"}
 AohM == {"all", "left", "right", "unique", "deep"}
@@ -41,14 +43,17 @@ Slice == {Cfg(h, "all", "all", "unique") : h \in HashM} \cup {Cfg("deep", a, "al
          \cup {Cfg("deep", "all", o, "unique") : o \in AohM} \cup {Cfg("deep", "all", "all", s) : s \in SetM}
          \cup {Cfg("left", "unique", "deep", "left"), Cfg("right", "left", "unique", "right"), Cfg("deep", "unique", "deep", "unique"),
                Cfg("deep", "right", "left", "unique"), Cfg("deep", "left", "right", "left"), Cfg("left", "all", "deep", "unique")}
-Cfgs == IF AllCombos THEN {Cfg(h, a, o, s) : h \in HashM, a \in ArrM, o \in AohM, s \in SetM} ELSE Slice
+SmallSlice == {Cfg("deep", "all", "all", "unique"), Cfg("left", "all", "all", "unique"), Cfg("right", "all", "all", "unique"),
+               Cfg("deep", "unique", "deep", "unique"), Cfg("deep", "right", "right", "right"), Cfg("deep", "left", "left", "left")}
+BaseCfgs == IF Cardinality(AnchorModes) > 1 /\ ~AllCombos THEN SmallSlice ELSE IF AllCombos THEN {Cfg(h, a, o, s) : h \in HashM, a \in ArrM, o \in AohM, s \in SetM} ELSE Slice
+Cfgs == {[c EXCEPT !.amode = am] : c \in BaseCfgs, am \in AnchorModes}
 
 L == TreeOf(lhs, 1)
 R == TreeOf(doc, 1)
-Result(c) == MergeRoot(L, R, c)
+Result(c) == MergeDocs(L, R, c, c.amode)
 
 (* ---- laws of C05 on the policy-defined result ---- *)
-Laws == (side = "R" /\ fresh) =>
+Laws == (side = "R" /\ fresh /\ ConflictNames(L, R) = {}) =>
   /\ \A c \in Cfgs : LET m == Result(c) IN
        \* hashes=left / right at the root of two Hashes
        /\ (L.k = "map" /\ R.k = "map" /\ c.hashes = "left") => (m.ok /\ TEq(m.tr, L))
@@ -60,12 +65,25 @@ Laws == (side = "R" /\ fresh) =>
              SelectSeq(m.tr.keys, LAMBDA k : \E j \in 1..Len(L.keys) : L.keys[j] = k) = L.keys
        \* unique is idempotent
        /\ (m.ok /\ ~m.info /\ L.k = R.k /\ c.arrays = "unique" /\ c.aoh \in {"unique", "deep"} /\ c.hashes = "deep" /\ c.sets = "unique") =>
-             LET again == MergeRoot(m.tr, R, c) IN again.ok => TEq(again.tr, m.tr)
+             LET again == MergeDocs(m.tr, R, c, c.amode) IN again.ok => TEq(again.tr, m.tr)
        \* a merge error exactly for the structurally impossible root pairs
        /\ (~IsNullT(L) /\ ~IsNullT(R) /\ L.k = "map" /\ R.k \in {"seq", "s"}) => ~m.ok
        /\ (~IsNullT(L) /\ ~IsNullT(R) /\ L.k = "set" /\ R.k = "map") => ~m.ok
 
-CfgName(c) == c.hashes \o "/" \o c.arrays \o "/" \o c.aoh \o "/" \o c.sets
+(* ---- laws of C10 on the policy-defined result ---- *)
+AnchorLaws == (side = "R" /\ fresh) => \A c \in Cfgs :
+  LET m == Result(c) cn == ConflictNames(L, R) IN
+  /\ (~IsNullT(L) /\ ~IsNullT(R) /\ c.amode = "stop" /\ cn # {}) => ~m.ok
+  /\ (m.ok /\ ~IsNullT(L) /\ ~IsNullT(R)) =>
+       \* every name that is left in the result reads one value
+       \A a \in AnchorNames(m.tr) : \A j \in 1..Len(NodesOfT(m.tr)) :
+           NodesOfT(m.tr)[j].anchor = a => TEq(NodesOfT(m.tr)[j], AnchorNode(m.tr, a))
+  /\ (m.ok /\ ~IsNullT(L) /\ ~IsNullT(R) /\ c.amode = "left") =>
+       \A a \in cn : a \in AnchorNames(m.tr) => TEq(AnchorNode(m.tr, a), AnchorNode(L, a))
+  /\ (m.ok /\ ~IsNullT(L) /\ ~IsNullT(R) /\ c.amode = "right") =>
+       \A a \in cn : a \in AnchorNames(m.tr) => TEq(AnchorNode(m.tr, a), AnchorNode(R, a))
+
+CfgName(c) == c.hashes \o "/" \o c.arrays \o "/" \o c.aoh \o "/" \o c.sets \o "/" \o c.amode
 MOutcome(c) == LET m == Result(c) IN [ok |-> m.ok, info |-> m.info, out |-> IF m.ok THEN TabOf(m.tr) ELSE <<>>]
 \* configurations are grouped by the result they define (most pairs are insensitive to most policies)
 Groups == LET outs == {MOutcome(c) : c \in Cfgs} IN
